@@ -503,16 +503,21 @@ class RaggedArray(IndexableArray, np.lib.mixins.NDArrayOperatorsMixin):
     def min(self, axis=None):
         return np.minimum.reduce(self, axis=1)
 
+    def _first_position_of(self, row_values):
+        """column of the first cell of each row equal to the row's entry in the column vector `row_values`"""
+        rows, cols = np.nonzero(self == row_values)
+        first_rows, idxs = np.unique(rows, return_index=True)
+        result = np.zeros(len(self), dtype=int)  # empty rows have no arg-extremum: unspecified, reported as 0
+        result[first_rows] = cols[idxs]
+        return result
+
     @reduction(allowed_axis=(1, -1))
-    def argmax(self):
-        m = self.max(axis=-1, keepdims=True)
-        rows, cols = np.nonzero(self == m)
-        _, idxs = np.unique(rows, return_index=True)
-        return cols[idxs]
+    def argmax(self, axis=-1):
+        return self._first_position_of(self.max(axis=-1, keepdims=True))
 
     @reduction(allowed_axis=(-1, 1))
     def argmin(self, axis=None):
-        return (-self).argmax(axis=-1)
+        return self._first_position_of(self.min(axis=-1, keepdims=True))
 
     def cumsum(self, axis: int = None, dtype: npt.DTypeLike = None) -> 'RaggedArray':
         """Return an array with cumulative sums along the given axis
